@@ -119,7 +119,19 @@ def gen_cases(rng, tier):
         # the releases added for keys still down come out of a hash set "in no particular order": with two or more
         # such keys possible the trace is only checked by the oracle, not compared event by event with the model
         # with recorded delays a replay lasts as long as the typing did: drain for at least the length of the history
-        h = h + ['t%d' % (sum(int(t[1:]) for t in h if t[0] == 't' and t[1:].isdigit()) + 300)]
+        # the replay in loop iterations of several milliseconds (a late loop): tick_ms(n) catches up on the recorded delays
+        step = rng.choice([1, 1, 1, 2, 3, 7])
+        if step > 1 and kind in ('simple', 'held-across', 'limit', 'boundary-repress', 'truncate-held'):
+            jpos = max(i2 for i2, t in enumerate(h) if t == 'd%d' % C['j']) if ('d%d' % C['j']) in h else None
+            if jpos is not None:
+                tail = []
+                for t in h[jpos + 1:]:
+                    if t[0] == 't' and t[1:].isdigit() and int(t[1:]) >= step:
+                        tail += ['m%d' % step] * (int(t[1:]) // step) + (['t%d' % (int(t[1:]) % step)] if int(t[1:]) % step else [])
+                    else:
+                        tail.append(t)
+                h = h[:jpos + 1] + tail
+        h = h + ['t%d' % (sum(int(t[1:]) * (1 if t[0] == 't' else 1) for t in h if t[0] in 'tm' and t[1:].isdigit()) + 300)]
         exact = single and kind != 'random'
         cases.append({'id': 'c19-%d' % i, 'cfg': cfg, 'hist': h + ['q'], 'sub': 'ksim', 'kind': kind, 'sensitive': sensitive,
                       'no_compare': not exact, 'tags': {'kind': kind, 'sensitive': sensitive, 'exact_compare': exact}})
